@@ -96,6 +96,7 @@ type GenOpts struct {
 	MinNodes, MaxNodes int
 	Variants           string // subset of "NRLP"
 	Aliases            bool
+	ShortAliases       bool // now and then a custom name that equals the bare TYPE name of another, unnamed node ("N3" next to verif/harness/zoo/N3)
 	Selfs              bool
 	Faults             bool
 	Lookups            bool
@@ -161,6 +162,14 @@ func Gen(t *rapid.T, o GenOpts) *Scenario {
 		k := rapid.IntRange(1, 3).Draw(t, "nalt")
 		for j := 0; j < k; j++ {
 			s.Nodes = append(s.Nodes, NodeSpec{Idx: j, Variant: 'A'})
+		}
+	}
+	if o.ShortAliases && len(s.Nodes) >= 2 && rapid.IntRange(0, 1).Draw(t, "shortalias") == 0 {
+		j := rapid.IntRange(0, len(s.Nodes)-1).Draw(t, "shortaliasholder")
+		i := rapid.IntRange(0, len(s.Nodes)-1).Draw(t, "shortaliasof")
+		if i != j && s.Nodes[i].Variant != 'A' {
+			s.Nodes[i].Alias = ""
+			s.Nodes[j].Alias = fmt.Sprintf("%c%d", s.Nodes[i].Variant, s.Nodes[i].Idx)
 		}
 	}
 	// aliases must be unique (duplicate registration is C07's subject)
